@@ -233,4 +233,5 @@ pub fn run(ctx: &mut Ctx) {
         }
     }
     crate::spaces::render_probes(ctx, &["cat", "substr"]);
+    crate::spaces::width_probes(ctx);
 }
